@@ -125,7 +125,8 @@ class Runner:
             clauses.append((energy_clause, abs(E - ref_energy), max(1.0, abs(ref_energy)), tol_e))
         if clauses:
             self.R.push(clauses, finite=True, rtype="scf", judged=judged, exception=None, energy=E,
-                        ref_energy=ref_energy, **base)
+                        ref_energy=ref_energy, ref_D=None if ref_D is None else [np.asarray(x).tolist() for x in ref_D],
+                        **base)
         return out
 
 
@@ -544,7 +545,7 @@ def report(chk, R, verdicts):
         else:
             what = (f"jax.jvp of {k['kind']}.optimize (norb {k['norb']}, nelec {k['nelec']}) at a TLC-certified fixed point with a "
                     f"{k['cls']} pair: {detail}")
-        chk.violation(site_of(k, failed), what, {x: y for x, y in k.items() if x not in ("what",)} | {"verdict": v})
+        chk.violation(site_of(k, failed), what, dict(k) | {"verdict": v})
     chk.note("observations_not_judged", {
         "fixed_points_certified_with_gap>=1_but_not_contractive": {
             "runs": obs["gaponly_fixed_point_runs"], "moved_or_energy_changed_after_30_iterations": obs["gaponly_fixed_point_left"],
@@ -630,6 +631,7 @@ def replay(chk: Check, case):
         en = [nm for nm in raw if nm.startswith("energy")]
         Runner(chk, code, R).run(c["kind"], c["norb"], tuple(c["nelec"]), hs, L, C0, c["cls"],
                                  ref_energy=c.get("ref_energy"), tol_e=raw[en[0]][2] if en else None, what=c.get("what", ""),
+                                 ref_D=None if c.get("ref_D") is None else [np.array(x) for x in c["ref_D"]],
                                  energy_clause=en[0] if en else "energy")
     elif c["rtype"].startswith("eigh"):
         got, exc = scf.attempt(code.eigh_jvp, np.array(c["A"]), np.array(c["Adot"]))
